@@ -200,7 +200,40 @@ def gen_reused_name(rng):
   return first, second
 
 
+# block and flat layouts of the same statements through gin.parse_config itself, some of them naming a configurable
+# nobody registered, parsed with skip_unknown: the layouts still mean the same - a finite table on the real code
+SKIP_LAYOUT_CASES = [{'dom': 'parse', 'kind': 'skip_layouts', 'skip': sk, 'scope': sc, 'order': order, 'texts': ['', '']}
+                     for sk in ('true', 'list', 'tuple') for sc in ('', 'a/') for order in ('unknown_first', 'unknown_between', 'unknown_last')]
+
+
+def run_skip_layouts(case):
+  import core
+  out = []
+  sc = case['scope']
+  unk_block = f'{sc}nobody.here:\n  a = 1\n  b = 2\n'
+  unk_flat = f'{sc}nobody.here.a = 1\n{sc}nobody.here.b = 2\n'
+  known1, known2 = f'{sc}sk.f.p = 2\n', 'sk.f.q = 3\nsk.g.r = 4\n'
+  known_block = f'{sc}sk.f:\n  p = 2\n'
+  parts = {'unknown_first': lambda u: u + known1 + known2, 'unknown_between': lambda u: known1 + u + known2,
+           'unknown_last': lambda u: known1 + known2 + u}[case['order']]
+  texts = [parts(unk_block), parts(unk_flat), parts(unk_block).replace(known1, known_block)]
+  skip = {'true': True, 'list': ['nobody.here'], 'tuple': ('nobody.here', 'zz.q')}[case['skip']]
+  for text in texts:
+    gin = core.fresh_gin()
+    g = {'__name__': 'sk'}
+    exec('def f(p=0, q=0):\n  return (p, q)\ndef g(r=0):\n  return r\n', g)  # pylint: disable=exec-used
+    gin.configurable(g['f'])
+    gin.configurable(g['g'])
+    try:
+      gin.parse_config(text, skip_unknown=skip)
+      out.append(sorted((k, sorted(v.items())) for k, v in gin.config._CONFIG.items()))  # pylint: disable=protected-access
+    except Exception as e:  # pylint: disable=broad-except
+      out.append(f'{type(e).__name__}: {e}'[:200])
+  return {'runs': [], 'tok_ok': [], 'facts': {'configs': [repr(o) for o in out], 'texts': texts}}
+
+
 def gen_cases(rng, tier, boost=1):
+  yield from SKIP_LAYOUT_CASES
   n = (700 if tier == 'quick' else 30000) * boost
   for k in range(n):
     if k % 6 == 5 and rng.random() < 0.2:
@@ -217,6 +250,8 @@ def gen_cases(rng, tier, boost=1):
 
 
 def run_impl(case):
+  if case['kind'] == 'skip_layouts':
+    return run_skip_layouts(case)
   runs = [parsedom.impl_statements(t) for t in case['texts']]
   # a generated string piece that Python's own tokenizer rejects is not a layout of anything
   tok_ok = [all(t['k'] != 'TOKERR' for t in parsedom.tokens_of(t_)) for t_ in case['texts']]
@@ -230,6 +265,8 @@ def to_driver(case, impl):
 
 
 def compare(case, impl, model):
+  if case['kind'] == 'skip_layouts':
+    return None
   if 'runs' not in model:
     return f'driver error: {model}'
   for i, (a, b) in enumerate(zip(impl['runs'], model['runs'])):
@@ -249,6 +286,12 @@ def _essence(stmts):
 
 
 def oracle(case, impl):
+  if case['kind'] == 'skip_layouts':
+    f = impl['facts']
+    if len(set(f['configs'])) != 1 or "'p', 2" not in f['configs'][0] or 'nobody' in f['configs'][0]:
+      return (f'three layouts of the same statements (an unknown configurable as a block or flat, skip_unknown={case["skip"]}) '
+              f'do not give one configuration holding the known bindings only: {f["configs"]}\n{f["texts"]}')
+    return None
   runs = impl['runs']
   if case['kind'] == 'bad':
     r = runs[0]
@@ -274,6 +317,9 @@ def nontrivial(case, impl):
 
 
 def tally(stats, case, impl):
+  if case['kind'] == 'skip_layouts':
+    stats['kind:skip_layouts'] = stats.get('kind:skip_layouts', 0) + 1
+    return
   stats['kind:' + case['kind']] = stats.get('kind:' + case['kind'], 0) + 1
   for r in impl['runs']:
     for s in r['stmts']:
